@@ -2,14 +2,19 @@
 (`MPSBackendImpl.save_simulation`, emu_mps/mps_backend_impl.py; `MPSBackend.resume`/`_run`, emu_mps/mps_backend.py).
 
 Lean: EmuVerif.Props.C27 over Model.Autosave (file system = base/.new/.bak -> absent|partial|complete v;
-`save_simulation` = open(.new), write(.new) [not atomic], replace(.new, base) [atomic]; crash after any
-operation prefix or inside the write). Correspondence: the real `save_simulation` under harness-level
+`save_simulation` = open(.new), write(.new) [not atomic, buffered: the disk holds a prefix], close(.new) [flush:
+complete], replace(.new, base) [atomic]; crash = process kill after any operation prefix or inside the write,
+write buffers lost). Correspondence: the real `save_simulation` under harness-level
 interposition of os.replace/os.rename/os.remove/open/pickle.dump in the emu_mps.mps_backend_impl
 namespace, in a temp dir, with a fake clock: operation sequence == model's, exception injected at every
 operation (and inside the write) of the 2nd and later autosaves, real directory (existence + loadability
 + which snapshot) == model's crash state, `MPSBackend.resume(base)` must succeed and reproduce the
-uninterrupted results. Always-on oracle: after every injected crash the advertised file is a loadable
-snapshot (previous or new) and resume works.
+uninterrupted results. Real process kills (`kill_level`): the autosave runs in a forked child that calls
+os._exit(9) immediately before/after every interposed call and inside the dump (no unwinding: buffers are not
+flushed), with a >= 300 kB snapshot (tensor padding attached to the back-end) and a tiny one; the parent
+compares the directory with the model's kill state (refinement: a model `partial` only promises existence),
+requires a complete previous-or-new snapshot under the advertised name and resumes from it. Always-on oracle:
+after every injected crash/kill the advertised file is a loadable snapshot (previous or new) and resume works.
 """
 from __future__ import annotations
 
@@ -21,16 +26,21 @@ from harness.common import Driver, LeanError, Report, lean_stage, seeded
 
 REGISTRY = dict(
     text=("Lean 4 theorems over every snapshot type, every initial directory (left-over .new/.bak of any kind) and "
-          "every history length: with the current save_simulation (write .new, os.replace(.new, base)) every crash "
+          "every history length, under process-kill semantics (write buffers lost: `write` leaves a prefix on disk, only "
+          "`close` completes the file): with the current save_simulation (open .new, write, close, os.replace(.new, base)) every crash "
           "state of an autosave that follows >= 1 completed autosave has `base = complete v` with v the previous or the "
           "new snapshot, so resume's is_file()+pickle.load succeeds (CrashSafe, autosave_survives_crash); the invariant "
-          "survives arbitrary interleavings of completed saves, crashed saves and restarts (loadable_forever). The "
+          "survives arbitrary interleavings of completed saves, crashed saves and restarts (loadable_forever). The variant with os.replace inside the `with` block (rename before the flush) has a kernel-checked counterexample (killed "
+          "after the rename: truncated pickle under the advertised name, previous snapshot gone) although its undisturbed runs "
+          "end in the same directory. The "
           "three-step variant removed by commit 3262c67 is modelled separately with a kernel-checked counterexample "
           "(nothing under the advertised name between the two renames). Model tied to the code by exact comparison of "
-          "the operation trace and of the directory after an exception injected at every operation and inside the write."),
+          "the operation trace and of the directory after an exception injected at every operation and inside the write, and by "
+          "real process kills (forked child, os._exit immediately before/after every interposed call) with a >= 300 kB and a tiny snapshot."),
     note=("Trusted: Lean kernel + propext/Quot.sound; hand-written Model.Autosave tied by the trace/crash-injection "
-          "correspondence only; crash = exception at an interposed call (os.replace/rename/remove, open, pickle.dump) — "
-          "durability under power loss (no fsync in save_simulation), other processes in the directory and Windows "
+          "correspondence only; crash = exception at, or os._exit(9) of a forked child immediately before/after, an interposed call "
+          "(os.replace/rename/remove, open, pickle.dump, close); kills between two non-interposed instructions are covered by the model only; "
+          "durability under power loss of the machine (no fsync in save_simulation), other processes in the directory and Windows "
           "rename semantics are outside the model; pickle round trip is validated by loading, not proved."),
     technique="Lean 4 proof (case analysis over crash states, induction over histories) + exact trace/crash-injection correspondence",
     design_ref="DESIGN.md §5 C27",
@@ -42,15 +52,8 @@ WITNESS_CLASS = "autosave-rename-window"
 
 
 def _event_to_label(events):
-    """index of real event -> index of the model operation it belongs to"""
-    lab, c = [], 0
-    for e in events:
-        if e.startswith("close:"):
-            lab.append(c - 1)
-        else:
-            lab.append(c)
-            c += 1
-    return lab, c
+    """index of real event -> index of the model operation (one to one: open, write(dump), close, replace, …)"""
+    return list(range(len(events))), len(events)
 
 
 class Ctx:
@@ -86,7 +89,8 @@ def save_level(rep: Report, cx: Ctx, rng, sysd, reorder, n_saves, leftovers_full
             ev1 = list(ip.per_save[-1]) if ip.per_save else []
             ops1 = U.canon_ops(ev1, 1)
             cx.ask("autosave.ops current a a a 1", ops1, dict(what="trace of the 1st autosave", events=ev1))
-            cx.ask("autosave.ops threeStep a a a 1", ("classify", ops1), {})
+            cx.ask("autosave.ops threeStep a a a 1", ("classify", ops1, "threeStep"), {})
+            cx.ask("autosave.ops earlyReplace a a a 1", ("classify", ops1, "earlyReplace"), {})
             st = U.dir_state(base)
             rep.case(key=("first", sysd["kind"], reorder), sample={"first_autosave_events": ev1, "dir": st})
             if st.split("/")[0] != "c1":
@@ -123,7 +127,8 @@ def save_level(rep: Report, cx: Ctx, rng, sysd, reorder, n_saves, leftovers_full
                     ops = U.canon_ops(events, j)
                     cx.ask(f"autosave.ops current {prev} {lnew} {lbak} {j}", ops,
                            dict(what=f"trace of autosave {j}", events=events, leftovers=(lnew, lbak)))
-                    cx.ask(f"autosave.ops threeStep {prev} {lnew} {lbak} {j}", ("classify", ops), {})
+                    cx.ask(f"autosave.ops threeStep {prev} {lnew} {lbak} {j}", ("classify", ops, "threeStep"), {})
+                    cx.ask(f"autosave.ops earlyReplace {prev} {lnew} {lbak} {j}", ("classify", ops, "earlyReplace"), {})
                     lab, nops = _event_to_label(events)
                     points = [("before", i) for i, e in enumerate(events) if not e.startswith("close:")]
                     points += [("mid", i) for i, e in enumerate(events) if e.startswith("dump:")]
@@ -177,8 +182,170 @@ def save_level(rep: Report, cx: Ctx, rng, sysd, reorder, n_saves, leftovers_full
                                     rep.fail(f"MPSBackend.resume(base) raised {type(e).__name__}: {e}", data)
                                 else:
                                     rep.extra.setdefault("resume_errors", []).append(f"{label}: {type(e).__name__}: {e}"[:160])
-                    cx.ask(f"autosave.crash current {prev} {lnew} {lbak} {j}", ("states", real_states),
+                    skip = {f"b{i}" for i, e in enumerate(events) if e.startswith("close:")}
+                    cx.ask(f"autosave.crash current {prev} {lnew} {lbak} {j}", ("states", real_states, skip, "exact"),
                            dict(what=f"crash states of autosave {j}", leftovers=(lnew, lbak), events=events))
+                reset()
+                U.put_file(base, f"c{j}", blobs)
+                ip.save_calls = j
+            for q in (base, base.with_suffix(".new"), base.with_suffix(".bak")):
+                if q.exists():
+                    q.unlink()
+
+
+def _state_ok(model: str | None, real: str, mode: str) -> bool:
+    """exact: identical. refine (process-kill runs): the model's `p` only promises that the file exists — what
+    reached the disk is a prefix, possibly everything (small pickles are written with one unbuffered write)."""
+    if model is None:
+        return False
+    if mode == "exact":
+        return model == real
+    return all(m == r or (m == "p" and r != "a") for m, r in zip(model.split("/"), real.split("/")))
+
+
+PAD_BYTES = 320_000
+
+
+def kill_points(events, essential: bool = False):
+    """all kill points; `essential` (quick tier; every fork of the torch-laden harness process costs ~1 s under
+    load) keeps one point per distinct model state around the operations that move or complete a file."""
+    if essential:
+        pts = []
+        for i, e in enumerate(events):
+            if e.startswith("dump:"):
+                pts.append((("kill_mid", i), f"m{i}", f"inside {e} (half of the bytes handed to the file object)"))
+                pts.append((("kill_after", i), f"b{i + 1}", f"immediately after {e}"))
+            if e.startswith(("replace:", "rename:", "remove:")):
+                pts.append((("kill_before", i), f"b{i}", f"immediately before {e}"))
+                pts.append((("kill_after", i), f"b{i + 1}", f"immediately after {e}"))
+        return pts
+    pts = []
+    for i, e in enumerate(events):
+        pts.append((("kill_before", i), f"b{i}", f"immediately before {e}"))
+        if e.startswith("dump:"):
+            pts.append((("kill_mid", i), f"m{i}", f"inside {e} (half of the bytes handed to the file object)"))
+        pts.append((("kill_after", i), f"b{i + 1}", f"immediately after {e}"))
+    pts.append((None, f"b{len(events)}", "not at all"))
+    return pts
+
+
+def run_killed_save(ip, impl, pt):
+    """`impl.save_simulation()` in a forked child that dies with os._exit(9) at `pt` (no unwinding, buffers lost);
+    returns the child's exit code."""
+    import os
+    import sys
+    sys.stdout.flush()
+    sys.stderr.flush()
+    pid = os.fork()
+    if pid == 0:
+        code = 0
+        try:
+            ip.crash, ip.crash_save, ip.fired = pt, None, False
+            impl.save_simulation()
+        except BaseException:
+            code = 3
+        finally:
+            os._exit(code)
+    _, status = os.waitpid(pid, 0)
+    return os.waitstatus_to_exitcode(status)
+
+
+def kill_level(rep: Report, cx: Ctx, rng, sysd, reorder, ref, pad: int, n_saves: int, resume_all: bool, only=None,
+               essential: bool = False):
+    """Real process kills: the autosave j >= 2 runs in a forked child that calls os._exit(9) immediately before /
+    after every interposed file-system call (and inside the dump); the parent then inspects the directory
+    (refinement of the model's kill-semantics crash state), checks that the advertised file is a complete snapshot
+    (previous or new) and resumes from it. `pad` bytes of tensor are attached to the back-end so that the pickle is
+    a few 100 kB (the tail after the last large object then sits in the 8 kB write buffer until close)."""
+    import torch
+    from harness import autosave_util as U
+    from emu_mps.mps_backend import MPSBackend
+    from emu_mps.mps_backend_impl import create_impl
+
+    with U.workdir() as tmp:
+        clock = U.FakeClock(0.0)
+        ip = U.Interposer()
+        ip.clock = clock
+        due = {"on": True}
+        ip.schedule = lambda k: 100.0 * k if due["on"] else -1e9
+        with U.fake_time(clock), ip.installed():
+            impl = create_impl(U.make_data(sysd), U.make_config(sysd, reorder, bitstrings=False))
+            impl.init()
+            if pad:
+                impl._verif_pad = torch.arange(pad // 8, dtype=torch.float64)
+            base = Path(impl.autosave_file)
+            impl.progress()                                   # first autosave, undisturbed
+            blobs = {1: base.read_bytes()}
+            rep.hist("kill_snapshot_kB", len(blobs[1]) // 1000)
+            for j in range(2, n_saves + 1):
+                if impl.is_finished():
+                    break
+                due["on"] = False
+                impl.progress()
+                due["on"] = True
+                prev = f"c{j - 1}"
+
+                def reset():
+                    U.put_file(base, prev, blobs)
+                    U.put_file(base.with_suffix(".new"), "a", blobs)
+                    U.put_file(base.with_suffix(".bak"), "a", blobs)
+                    impl.last_save_time = 0.0
+                    ip.save_calls = j - 1
+                    ip.crash, ip.crash_save, ip.fired = None, None, False
+                reset()
+                impl.save_simulation()                        # learn the events (parent, undisturbed)
+                events = list(ip.per_save[-1])
+                blobs[j] = base.read_bytes()
+                real_states = {}
+                pts = kill_points(events, essential)
+                for pt, label, where in pts:
+                    if only is not None and where != only:      # replay: the recorded kill point, by name
+                        continue
+                    reset()
+                    rc = run_killed_save(ip, impl, pt)
+                    if rc not in (0, 9) or (rc == 9) != (pt is not None):
+                        if rc == 3:
+                            rep.fail("save_simulation raised in the forked child", dict(system=sysd, save=j, kill=where))
+                        else:
+                            rep.broke(f"harness: forked autosave ended with exit code {rc} at kill point {pt}")
+                        continue
+                    st = U.dir_state(base)
+                    real_states.setdefault(label, st)
+                    rep.case(key=("kill", sysd["kind"], pad, j, str(pt)),
+                             sample={"kill": where, "save": j, "snapshot_bytes": len(blobs[j]), "dir": st})
+                    rep.hist("kill_point", label)
+                    b = st.split("/")[0]
+                    data = dict(system=sysd, reorder=reorder, save=j, kill=None if pt is None else list(pt), kill_where=where,
+                                pad_bytes=pad, snapshot_bytes=len(blobs[j]), crash_point=label,
+                                events_of_an_undisturbed_save=events, dir_base_new_bak=st)
+                    ok = b in (prev, f"c{j}")
+                    if not ok:
+                        size = base.stat().st_size if base.exists() else None
+                        data["advertised_file_bytes"] = size
+                        err = ""
+                        try:
+                            import pickle
+                            with open(base, "rb") as f:
+                                pickle.load(f)
+                        except Exception as e:
+                            err = f"{type(e).__name__}: {e}"
+                        rep.fail(f"process killed {where} of autosave {j}: the advertised file is "
+                                 f"{'missing' if b == 'a' else 'not loadable (' + err + ', ' + str(size) + ' of ' + str(len(blobs[j])) + ' bytes)' if b == 'p' else 'snapshot ' + b}"
+                                 f"; directory base/.new/.bak = {st}", data)
+                    if ok and (resume_all or pt is None or (pt[0] != "kill_mid" and events[pt[1]].startswith(("replace:", "rename:")))):
+                        ip.save_calls = int(b[1:])
+                        try:
+                            res = MPSBackend.resume(base)
+                            msg = U.diff_results(ref, U.canon_results(res)) if ref is not None else None
+                            if msg:
+                                rep.fail(f"resume after a process kill {where} of autosave {j} differs from the uninterrupted run: {msg}", data)
+                            rep.count("resumes_after_kill")
+                        except Exception as e:
+                            rep.fail(f"MPSBackend.resume(base) after a process kill {where} raised {type(e).__name__}: {e}", data)
+                if only is None:
+                    skip = set() if not essential else {"b0", "b1", "b2", "b3", "b4", "b5", "b6", "m1"} - set(real_states)
+                    cx.ask(f"autosave.crash current {prev} a a {j}", ("states", real_states, skip, "refine"),
+                           dict(what=f"kill states of autosave {j}", pad=pad, events=events))
                 reset()
                 U.put_file(base, f"c{j}", blobs)
                 ip.save_calls = j
@@ -278,11 +445,7 @@ def world_level(rep: Report, cx: Ctx, rng, sysd, reorder, n_runs):
             ops = []
             bad = False
             for k, evs in enumerate(ip.per_save, 1):
-                c = U.canon_ops(evs, k)
-                if c is None:
-                    bad = True
-                    break
-                ops += c
+                ops += U.canon_ops(evs, k)
             tail = [e for e in ip.all_events[sum(len(e) for e in ip.per_save):]]
             real = None if bad else ops + tail
             left = sorted(p.name for p in tmp.iterdir())
@@ -306,18 +469,21 @@ def settle(rep: Report, cx: Ctx):
     except LeanError as e:
         rep.broke("driver: " + str(e)[-800:])
         return
-    matches_three = matches_cur = total_traces = 0
+    matches_three = matches_early = matches_cur = total_traces = 0
     for (line, real, ctx), mo in zip(cx.q, out):
         if isinstance(real, tuple) and real[0] == "classify":
             if real[1] is not None and ",".join(real[1]) == mo:
-                matches_three += 1
+                if real[2] == "threeStep":
+                    matches_three += 1
+                else:
+                    matches_early += 1
             continue
         if isinstance(real, tuple) and real[0] == "states":
             model = dict(x.split("=") for x in mo.split(";"))
             for lab, st in real[1].items():
-                if model.get(lab) != st:
+                if not _state_ok(model.get(lab), st, real[3]):
                     rep.broke(f"correspondence crash state: {line} at {lab}: model {model.get(lab)} real {st} ({json.dumps(ctx, default=str)[:300]})")
-            missing = set(model) - set(real[1])
+            missing = set(model) - set(real[1]) - set(real[2])
             if missing and real[1]:
                 rep.broke(f"correspondence crash state: {line}: model crash points {sorted(missing)} were not reachable on the real code")
             continue
@@ -339,9 +505,14 @@ def settle(rep: Report, cx: Ctx):
             rep.broke(f"correspondence operation trace: {line}: model {mo} real {got} ({json.dumps(ctx, default=str)[:300]})")
     rep.extra["traces_matching_current_model"] = f"{matches_cur}/{total_traces}"
     rep.extra["traces_matching_threeStep_model"] = matches_three
+    rep.extra["traces_matching_earlyReplace_model"] = matches_early
+    if matches_cur < total_traces and matches_early >= total_traces - matches_cur and total_traces:
+        rep.notes.append("the real operation traces match the early-replace variant (saveEarlyReplace: os.replace inside the "
+                         "`with` block) of the model: Props.C27.earlyReplace_counterexample applies (process killed at b3, "
+                         "after the rename, before the flush)")
     if matches_cur < total_traces and matches_three >= total_traces - matches_cur and total_traces:
         rep.notes.append("the real operation traces match the three-step variant (saveOld) of the model: "
-                         "Props.C27.threeStep_counterexample applies (crash point b3)")
+                         "Props.C27.threeStep_counterexample applies (crash point b4)")
 
 
 def reference(sysd, reorder):
@@ -361,12 +532,21 @@ def check(rep: Report, tier: str, seed: int) -> None:
                 "distinct (kind, j, leftovers, crash point); plus crashes inside the real run loop (single and double, then "
                 "resume) and whole runs under random integer clocks hitting the autosave_dt guard at equality")
     rep.assumptions = [
-        "crash = exception raised at an interposed call; the `with` block then closes the file. A kill between "
-        "pickle.dump and close is covered by the model's mid-write state (partial .new), not injected.",
+        "crash = exception raised at an interposed call (the `with` block then unwinds and flushes) or a real process kill: "
+        "os._exit(9) in a forked child immediately before/after every interposed call and inside pickle.dump (buffers lost)",
+        "the kill injector pads the back-end with a 320 kB tensor so that the pickle has an unflushed tail (as snapshots with "
+        "bond dimension >~ 32 do); a tiny (~11 kB) snapshot is killed as well",
         "durability under power loss is outside the model (save_simulation does not fsync)",
         "unpickling an autosave gives back an equivalent back-end (validated by loading and resuming, not proved)",
     ]
+    import time as _time
+    _t = [_time.time()]
+
+    def lap(name):
+        rep.extra.setdefault("seconds", {})[name] = round(rep.extra.get("seconds", {}).get(name, 0) + _time.time() - _t[0], 1)
+        _t[0] = _time.time()
     lean_stage(rep, PROP_MODULE, AUDIT, thorough=(tier == "thorough"))
+    lap("lean")
     rng = seeded(seed * 6151 + 27)
     cx = Ctx(rep)
     quick = tier == "quick"
@@ -378,11 +558,21 @@ def check(rep: Report, tier: str, seed: int) -> None:
         rep.hist("system", f"{kind}/n={sysd['n']}/steps={sysd['steps']}/reorder={reorder}")
         U.seed_all(seed)
         ref = reference(sysd, reorder) if kind != "noisy" else None   # noisy: resume must succeed, values are random
+        lap("reference")
         save_level(rep, cx, rng, sysd, reorder, n_saves=(2 if small else 3) if quick else 6, leftovers_full=not small,
                    resume_for={(2, "a", "a")} if quick else {(2, "a", "a"), (3, "a", "a"), (2, "p", "p")}, ref=ref)
+        lap("save_level")
+        if ki == 0 or not quick:
+            # real process kills: a padded (>= 300 kB) and a tiny snapshot
+            kill_level(rep, cx, rng, sysd, reorder, ref, pad=PAD_BYTES, n_saves=2 if quick else 4, resume_all=not quick, essential=quick)
+            kill_level(rep, cx, rng, sysd, reorder, ref, pad=0, n_saves=2 if quick else 3, resume_all=False, essential=quick)
+        lap("kill_level")
         loop_level(rep, cx, rng, sysd, reorder, ref, n_scen=(1 if small else 2) if quick else 8)
+        lap("loop_level")
         world_level(rep, cx, rng, sysd, reorder, n_runs=(1 if small else 2) if quick else 12)
+        lap("world_level")
     settle(rep, cx)
+    lap("driver")
     if rep.broken and not rep.failing:
         search(rep, seed, tier)
 
@@ -418,6 +608,21 @@ def replay(rep: Report, path: str) -> int:
         d = f["data"]
         if "save" not in d:
             print("replay: (loop-level scenario) re-run `vcheck C27` with the recorded seed")
+            continue
+        if d.get("kill") is not None:
+            # real process kill: fork, os._exit(9) at the recorded interposed call, inspect the directory, resume
+            import torch
+            torch.set_num_threads(1)
+            before = len(rep.failing)
+            kill_level(rep, Ctx(rep), seeded(0), d["system"], d.get("reorder", False), None, pad=d.get("pad_bytes", 0),
+                       n_saves=d["save"], resume_all=True, only=d["kill_where"])
+            new = rep.failing[before:]
+            for x in new:
+                print("replay:", x["what"])
+            if not new:
+                print(f"replay: process killed {d['kill_where']} of autosave {d['save']} ({d.get('snapshot_bytes')} byte snapshot): "
+                      "advertised file complete, resume ok — property holds on this input now")
+            bad += bool(new)
             continue
         sysd, j = d["system"], d["save"]
         with U.workdir():
